@@ -112,6 +112,22 @@ class Wire:
             self.hold[direction] = was
         self.settle()
 
+    def release_at(self, direction, idx):
+        """Deliver one held packet out of order."""
+        pkt = self.held[direction].pop(idx)
+        was = self.hold[direction]
+        self.hold[direction] = False
+        send = self._client_send if direction == 'c2s' else \
+            self._server_send
+        try:
+            if self.is_async:
+                self.sw.run(send, pkt)
+            else:
+                send(pkt)
+        finally:
+            self.hold[direction] = was
+        self.settle()
+
     def settle(self):
         if not self.is_async:
             n = 0
